@@ -1280,7 +1280,7 @@ func (p *wat2cWorker) buildFunc_ins(w io.Writer, fn *ast.Func, stk *valueTypeSta
 	case token.INS_MEMORY_GROW:
 		sp0 := stk.Pop(token.I32)
 		ret0 := stk.Push(token.I32)
-		fmt.Fprintf(w, "%sif(%s_memory_size+R%d.i32 <= %s_memory_init_max_pages) {\n",
+		fmt.Fprintf(w, "%sif((uint32_t)(R%[3]d.i32) <= (uint32_t)(%[4]s_memory_init_max_pages-%[2]s_memory_size)) {\n",
 			indent, p.opt.Prefix, sp0, p.opt.Prefix,
 		)
 		{
